@@ -99,6 +99,15 @@ class CGraph:
         At first, the arguments of the global functions are read into the independent functions.
         Then the computational graph is walked and at each function node
         """
+        # constants that the recorded program updates in place start from their recorded value
+        independents = set(id(f) for f in self.independentFunctionList)
+        for f in self.functionList:
+            x0 = getattr(f, '_x0', None)
+            if x0 is not None and id(f) not in independents and f.func == Function.Id \
+                    and isinstance(f.x, type(x0)) and numpy.shape(f.x) == numpy.shape(x0) \
+                    and (not isinstance(x0, algopy.UTPM) or f.x.data.shape == x0.data.shape):
+                f.x[...] = x0
+
         # populate independent arguments with new values
         for nf,f in enumerate(self.independentFunctionList):
             f.args[0].x = x_list[nf]
@@ -741,6 +750,10 @@ class Function(Ring):
             # returning x when called
             cls = self.__class__
             cls.create(x, [self], {}, cls.Id, self)
+            # the value at recording time: a program may update a constant node in place
+            # (acc = Function(zeros); acc += ...), every re-evaluation starts from this value
+            if isinstance(x, (numpy.ndarray, algopy.UTPM)):
+                self._x0 = x.copy()
 
     @property
     def dtype(self):
